@@ -17,6 +17,7 @@ from typing import Any
 
 from . import core
 from . import decomp_switch as dsw
+from . import decomp_loops as dlp
 
 MODULES = ["ESV.Props.DecompFuel", "ESV.Props.DecompFront", "ESV.Props.DecompOpt", "ESV.Props.DecompBranches", "ESV.Props.DecompGroup"]
 THEOREMS = ["ESV.DecompFront.resolve_total", "ESV.DecompFront.resolve_preserves", "ESV.DecompFront.baseGraph_preserves",
@@ -41,6 +42,8 @@ THEOREMS += ["ESV.DecompFront.stepB_agrees", "ESV.DecompFront.stepB_agrees_after
 
 MODULES += dsw.MODULES
 THEOREMS += dsw.THEOREMS
+MODULES += dlp.MODULES
+THEOREMS += dlp.THEOREMS
 
 BB_EXAMPLES: list[dict] = []   # first real inputs on which build_branches alone changes behaviour (counted, see front_channels)
 
@@ -431,16 +434,20 @@ def front_channels(run: core.Run, pool: core.Pool, drv: core.Driver, sets: list[
     # the answers of the heuristic search build_branches calls are an oracle input of the model: recorded from the real run
     model = drv.batch_parallel([dict({"op": "decomp.front", "rs": strip_ops(s["rs"])},
                                      **({"answers": a["answers"]} if isinstance(a, dict) and "answers" in a else {}),
-                                     **({"sw_answers": a["sw_answers"]} if isinstance(a, dict) and "sw_answers" in a else {}))
+                                     **({"sw_answers": a["sw_answers"]} if isinstance(a, dict) and "sw_answers" in a else {}),
+                                     **dlp.oracle_args(a))
                                 for s, a in zip(sets, real)], jobs)
     mism = 0
     vreqs, vidx = [], []
     answers_of: dict[int, Any] = {}
     sw_answers_of: dict[int, Any] = {}
+    lp_oracle_of: dict[int, Any] = {}
     for i, (s, a, b) in enumerate(zip(sets, real, model)):
         if a is None:
             cnt["impl_no_answer"] += 1
             continue
+        if "ft_marked" in a:
+            lp_oracle_of[i] = dlp.count_loops(cnt, a)
         if "sw_answers" in a:
             sw_answers_of[i] = a.pop("sw_answers")
             dsw.count_switch(cnt, a, b, sw_answers_of[i])
@@ -595,6 +602,8 @@ def front_channels(run: core.Run, pool: core.Pool, drv: core.Driver, sets: list[
                                             "after": real[i][{"bridge": "bb", "group": "gb", "invert": "ib"}[phase]][r]})
     # fifth and sixth rewriting phase (build_and_group_switch_cases, group_switch_cases): harness/decomp_switch.py
     mism += dsw.switch_channels(run, pool, drv, sets, real, sw_answers_of, jobs, cnt)
+    # seventh to ninth rewriting phase (build_switch_fallthroughs, build_loops, remove_label_markers): harness/decomp_loops.py
+    mism += dlp.loop_channels(run, pool, drv, sets, real, lp_oracle_of, jobs, cnt)
     mism += branches_graph_tie(run, pool, drv, 400, jobs, cnt)
     mism += group_graph_tie(run, pool, drv, 300, jobs, cnt)
     # environment model: igraph incident-edge order
